@@ -415,11 +415,102 @@ func deepEq(a, b reflect.Value) bool {
 	return reflect.DeepEqual(a.Interface(), b.Interface())
 }
 
-// Render prints a value for violation reports (bounded).
+// Render prints a value deeply and without addresses (pointers are
+// dereferenced), so that renderings are comparable across runs.
 func Render(v interface{}) string {
-	s := fmt.Sprintf("%#v", v)
-	if len(s) > 400 {
-		s = s[:400] + "…"
+	var sb strings.Builder
+	if v == nil {
+		return "nil"
+	}
+	render(&sb, reflect.ValueOf(v), 0)
+	s := sb.String()
+	if len(s) > 1200 {
+		s = s[:1200] + "…"
 	}
 	return s
+}
+
+func render(sb *strings.Builder, v reflect.Value, depth int) {
+	if depth > 12 || sb.Len() > 1400 {
+		sb.WriteString("…")
+		return
+	}
+	switch v.Kind() {
+	case reflect.Invalid:
+		sb.WriteString("nil")
+	case reflect.Ptr:
+		if v.IsNil() {
+			sb.WriteString("nil")
+			return
+		}
+		sb.WriteString("&")
+		render(sb, v.Elem(), depth+1)
+	case reflect.Interface:
+		if v.IsNil() {
+			sb.WriteString("nil")
+			return
+		}
+		fmt.Fprintf(sb, "(%s)", v.Elem().Type())
+		render(sb, v.Elem(), depth+1)
+	case reflect.Struct:
+		sb.WriteString(v.Type().Name() + "{")
+		for i := 0; i < v.NumField(); i++ {
+			if v.Type().Field(i).PkgPath != "" {
+				continue
+			}
+			if i > 0 {
+				sb.WriteString(" ")
+			}
+			sb.WriteString(v.Type().Field(i).Name + ":")
+			render(sb, v.Field(i), depth+1)
+		}
+		sb.WriteString("}")
+	case reflect.Slice:
+		if v.IsNil() {
+			sb.WriteString("nil[]")
+			return
+		}
+		sb.WriteString("[")
+		for i := 0; i < v.Len(); i++ {
+			if i > 0 {
+				sb.WriteString(" ")
+			}
+			render(sb, v.Index(i), depth+1)
+		}
+		sb.WriteString("]")
+	case reflect.Map:
+		if v.IsNil() {
+			sb.WriteString("nil{}")
+			return
+		}
+		keys := v.MapKeys()
+		strs := make([]string, len(keys))
+		for i, k := range keys {
+			strs[i] = fmt.Sprintf("%q", fmt.Sprint(k.Interface()))
+		}
+		idx := make([]int, len(keys))
+		for i := range idx {
+			idx[i] = i
+		}
+		for i := 1; i < len(idx); i++ {
+			for j := i; j > 0 && strs[idx[j-1]] > strs[idx[j]]; j-- {
+				idx[j-1], idx[j] = idx[j], idx[j-1]
+			}
+		}
+		sb.WriteString("{")
+		for n, i := range idx {
+			if n > 0 {
+				sb.WriteString(" ")
+			}
+			sb.WriteString(strs[i] + ":")
+			render(sb, v.MapIndex(keys[i]), depth+1)
+		}
+		sb.WriteString("}")
+	case reflect.String:
+		fmt.Fprintf(sb, "%q", v.String())
+	case reflect.Float32, reflect.Float64:
+		fmt.Fprintf(sb, "%v/%#x", v.Float(), math.Float64bits(v.Float()))
+	default:
+		fmt.Fprintf(sb, "%v", v.Interface())
+	}
 }
